@@ -229,3 +229,12 @@ package hotline
 //@   requires len(b) >= 4
 //@   ensures r != nil && bytes(r.Fork) == "DATA" && bytes(r.DataSize) == bytes(b)[0:4] && bytes(r.RSVDA) == zeros(4) && bytes(r.RSVDB) == zeros(4)
 //@   nopanic
+
+// News category list data 1.5 (323): type 2 (2 bundle / 3 category), count 2; category only:
+// GUID 16, add SN 4, delete SN 4; then name size 1, name.
+
+//@ define wire_NewsCat15(c) := ite(bytes(c.Type) == seq(0,3), cat(bytes(c.Type), be16(len(c.Articles)+len(c.SubCats)), bytes(c.GUID), bytes(c.AddSN), bytes(c.DeleteSN), seq(len(c.Name)), bytes(c.Name)), cat(bytes(c.Type), be16(len(c.Articles)+len(c.SubCats)), seq(len(c.Name)), bytes(c.Name)))
+//@ define inv_NewsCat15(c) := len(c.Name) <= 255 && len(c.Articles)+len(c.SubCats) <= 65535
+
+//@ func (newscat *NewsCategoryListData15) Read(p []byte) (n int, err error)
+//@   cursor wire_NewsCat15 readOffset inv_NewsCat15
